@@ -86,17 +86,27 @@ func (th *TagsHolder) checkTagKeys() error {
 	return nil
 }
 
-// The tags tree file stores the length of a string tag value in 16 bits, so a
-// longer value cannot be written.
+// A tag value must be a string (or a number) that the tags tree can hold. The tags tree
+// file stores the length of a string tag value in 16 bits, so a longer value cannot be written.
+// A datapoint with a tag that cannot be added to the tags tree must be rejected as a whole.
 func (th *TagsHolder) checkTagValues() error {
 	for i := 0; i < th.idx; i++ {
 		entry := &th.entries[i]
-		if entry.tagValueType != jp.String || len(entry.tagValue) <= math.MaxUint16 {
+		if entry.tagValueType == jp.Number {
+			continue
+		}
+		if entry.tagValueType != jp.String {
+			return fmt.Errorf("value of tag %q is not a string or a number", entry.tagKey)
+		}
+		if len(entry.tagValue) <= math.MaxUint16 && bytes.IndexByte(entry.tagValue, '\\') < 0 {
 			continue
 		}
 		// the raw value may be longer than the value because of escape sequences
 		value, err := jp.ParseString(entry.tagValue)
-		if err != nil || len(value) > math.MaxUint16 {
+		if err != nil {
+			return fmt.Errorf("value of tag %q is not a valid string: %v", entry.tagKey, err)
+		}
+		if len(value) > math.MaxUint16 {
 			return fmt.Errorf("value of tag %q is longer than %v bytes", entry.tagKey, math.MaxUint16)
 		}
 	}
